@@ -1,50 +1,16 @@
 ------------------------------- MODULE Lexer -------------------------------
 (***************************************************************************)
-(* The SMT-LIB 2.6 reader as a character-level state machine (C08; the     *)
-(* reference for token sequences used by C01, C07, C15).                   *)
-(*                                                                         *)
-(* Written from the standard (section 3.1 "Lexicon"), not from             *)
-(* nodeio.parse_smtlib:                                                    *)
-(*   - white space is TAB, LF, CR and space;                               *)
-(*   - a comment runs from ';' (outside a string literal / quoted symbol)  *)
-(*     to the next line-breaking character (LF or CR);                     *)
-(*   - a string literal is delimited by '"', and '""' inside it is an      *)
-(*     escaped quote;                                                      *)
-(*   - a quoted symbol runs from '|' to the next '|' and may span lines;   *)
-(*   - every other lexeme (numeral, decimal, #x.., #b.., simple symbol,    *)
-(*     keyword) is a maximal run of non-delimiter characters.              *)
-(* ddSMT's convention, fixed by the property: a comment is a separate leaf *)
-(* placed where it occurs (in the enclosing list, or at top level).        *)
-(*                                                                         *)
-(* Characters are class representatives (strings naming the class), a text *)
-(* is a sequence of them.  The module is used                              *)
-(*   (a) as a generator: TLC enumerates every in-scope text of length      *)
-(*       <= MaxLen over Chars; the states with done = TRUE carry the text  *)
-(*       and the expected token sequence and forest, and are replayed into *)
-(*       nodeio.parse_smtlib;                                              *)
-(*   (b) as operators Lex(text) / Read(text) for other modules.            *)
-(*                                                                         *)
-(* Scope (the property speaks of *separated* lexemes): two atom-like       *)
-(* lexemes (atoms, strings, quoted symbols) are never adjacent; they are   *)
-(* separated by white space, a parenthesis or a comment.  The generator    *)
-(* enforces this in the enabling conditions, nothing is filtered later.    *)
+(* Generator form of the SMT-LIB reader of LexerOps.tla: TLC enumerates    *)
+(* every in-scope text of length <= MaxLen over Chars, character by        *)
+(* character; final states (done = TRUE) carry the text, its token         *)
+(* sequence and its forest, and are replayed into nodeio.parse_smtlib      *)
+(* (C08).  See LexerOps.tla for the reader itself and the scope rules.     *)
 (***************************************************************************)
-EXTENDS Naturals, Sequences, FiniteSets, TLC
+EXTENDS LexerOps
 
 CONSTANTS Chars,      \* subset of AllChars explored by the generator
           MaxLen,     \* maximal text length
           MaxDepth    \* maximal nesting depth of parentheses
-
-AllChars == {"LP", "RP", "SP", "TAB", "LF", "CR", "DQ", "BAR", "SEMI",
-             "A", "D", "HASH", "COLON", "MINUS"}
-
-WS        == {"SP", "TAB", "LF", "CR"}
-LineBreak == {"LF", "CR"}
-AtomChars == {"A", "D", "HASH", "COLON", "MINUS"}
-Delims    == WS \cup {"LP", "RP", "SEMI"}   \* what may follow a lexeme directly
-
-Leaf(d)  == [t |-> "L", d |-> d, k |-> <<>>]
-List(k)  == [t |-> "N", d |-> <<>>, k |-> k]
 
 VARIABLES text,   \* the characters read so far
           mode,   \* "top" | "atom" | "str" | "strq" | "bar" | "aft" | "com"
@@ -55,65 +21,6 @@ VARIABLES text,   \* the characters read so far
           done    \* TRUE: end of text was processed; toks/stack[1] are final
 
 vars == <<text, mode, kind, cur, toks, stack, done>>
-
------------------------------------------------------------------------------
-(* Structure building *)
-
-Push(st)      == Append(st, <<>>)
-AddTo(st, n)  == [st EXCEPT ![Len(st)] = Append(@, n)]
-Pop(st)       == LET closed == List(st[Len(st)])
-                     rest   == SubSeq(st, 1, Len(st) - 1)
-                 IN  AddTo(rest, closed)
-
-(* Finish the lexeme in cur: one token, one leaf in the innermost open list *)
-Emit(tk, st, c) == [tk |-> Append(tk, c), st |-> AddTo(st, Leaf(c))]
-
------------------------------------------------------------------------------
-(* Atom scope automaton: which single lexeme is a run of atom characters.   *)
-(*   sym  : A (A|D|MINUS)*            simple symbol                         *)
-(*   num  : D+                         numeral                              *)
-(*   kw   : COLON A (A|D|MINUS)*       keyword                              *)
-(*   hash : HASH A D+                  #b0.. / #x0.. literal                *)
-(*   neg  : MINUS                      the symbol "-" , then like sym       *)
-AtomStart(c) == CASE c = "A"     -> "sym"
-                  [] c = "D"     -> "num"
-                  [] c = "COLON" -> "kw0"
-                  [] c = "HASH"  -> "hash0"
-                  [] c = "MINUS" -> "sym"
-                  [] OTHER       -> "none"
-
-AtomNext(kd, c) ==
-    CASE kd = "sym"   /\ c \in {"A", "D", "MINUS"} -> "sym"
-      [] kd = "num"   /\ c = "D"                   -> "num"
-      [] kd = "kw0"   /\ c = "A"                   -> "kw"
-      [] kd = "kw"    /\ c \in {"A", "D", "MINUS"} -> "kw"
-      [] kd = "hash0" /\ c = "A"                   -> "hash1"
-      [] kd = "hash1" /\ c = "D"                   -> "hash"
-      [] kd = "hash"  /\ c = "D"                   -> "hash"
-      [] OTHER                                     -> "none"
-
-AtomComplete(kd) == kd \in {"sym", "num", "kw", "hash"}
-
------------------------------------------------------------------------------
-(* One step of the reader at the top of a lexeme boundary (modes top/aft     *)
-(* and after a lexeme has just been finished).  Returns the new              *)
-(* [mode, kind, cur, toks, stack]; character c is a delimiter or starts a    *)
-(* new lexeme.                                                               *)
-AtBoundary(c, tk, st) ==
-    CASE c \in WS    -> [mode |-> "top", kind |-> "none", cur |-> <<>>,
-                         toks |-> tk, stack |-> st]
-      [] c = "LP"    -> [mode |-> "top", kind |-> "none", cur |-> <<>>,
-                         toks |-> Append(tk, <<"LP">>), stack |-> Push(st)]
-      [] c = "RP"    -> [mode |-> "top", kind |-> "none", cur |-> <<>>,
-                         toks |-> Append(tk, <<"RP">>), stack |-> Pop(st)]
-      [] c = "SEMI"  -> [mode |-> "com", kind |-> "none", cur |-> <<c>>,
-                         toks |-> tk, stack |-> st]
-      [] c = "DQ"    -> [mode |-> "str", kind |-> "none", cur |-> <<c>>,
-                         toks |-> tk, stack |-> st]
-      [] c = "BAR"   -> [mode |-> "bar", kind |-> "none", cur |-> <<c>>,
-                         toks |-> tk, stack |-> st]
-      [] OTHER       -> [mode |-> "atom", kind |-> AtomStart(c), cur |-> <<c>>,
-                         toks |-> tk, stack |-> st]
 
 (* Is character c allowed next (scope and balance)? *)
 Allowed(c) ==
@@ -127,35 +34,8 @@ Allowed(c) ==
     /\ mode = "top"  => (c \in AtomChars => AtomStart(c) # "none")
 
 Step(c) ==
-    LET r ==
-      CASE mode \in {"top", "aft"} -> AtBoundary(c, toks, stack)
-        [] mode = "atom" ->
-             IF c \in AtomChars
-             THEN [mode |-> "atom", kind |-> AtomNext(kind, c),
-                   cur |-> Append(cur, c), toks |-> toks, stack |-> stack]
-             ELSE LET e == Emit(toks, stack, cur) IN AtBoundary(c, e.tk, e.st)
-        [] mode = "str" ->
-             [mode |-> IF c = "DQ" THEN "strq" ELSE "str", kind |-> "none",
-              cur |-> Append(cur, c), toks |-> toks, stack |-> stack]
-        [] mode = "strq" ->
-             IF c = "DQ"   \* doubled quote: still inside the literal
-             THEN [mode |-> "str", kind |-> "none", cur |-> Append(cur, c),
-                   toks |-> toks, stack |-> stack]
-             ELSE LET e == Emit(toks, stack, cur) IN AtBoundary(c, e.tk, e.st)
-        [] mode = "bar" ->
-             IF c = "BAR"
-             THEN LET e == Emit(toks, stack, Append(cur, c))
-                  IN [mode |-> "aft", kind |-> "none", cur |-> <<>>,
-                      toks |-> e.tk, stack |-> e.st]
-             ELSE [mode |-> "bar", kind |-> "none", cur |-> Append(cur, c),
-                   toks |-> toks, stack |-> stack]
-        [] mode = "com" ->
-             IF c \in LineBreak
-             THEN LET e == Emit(toks, stack, cur)
-                  IN [mode |-> "top", kind |-> "none", cur |-> <<>>,
-                      toks |-> e.tk, stack |-> e.st]
-             ELSE [mode |-> "com", kind |-> "none", cur |-> Append(cur, c),
-                   toks |-> toks, stack |-> stack]
+    LET r == StepF([mode |-> mode, kind |-> kind, cur |-> cur,
+                    toks |-> toks, stack |-> stack], c)
     IN /\ mode' = r.mode /\ kind' = r.kind /\ cur' = r.cur
        /\ toks' = r.toks /\ stack' = r.stack
 
@@ -173,10 +53,9 @@ CanFinish == /\ Len(stack) = 1
 
 Finish == /\ ~done
           /\ CanFinish
-          /\ LET e == IF mode \in {"atom", "strq", "com"}
-                      THEN Emit(toks, stack, cur)
-                      ELSE [tk |-> toks, st |-> stack]
-             IN toks' = e.tk /\ stack' = e.st
+          /\ LET r == FinishF([mode |-> mode, kind |-> kind, cur |-> cur,
+                               toks |-> toks, stack |-> stack])
+             IN toks' = r.toks /\ stack' = r.stack
           /\ cur' = <<>> /\ mode' = "top" /\ kind' = "none"
           /\ done' = TRUE
           /\ UNCHANGED text
@@ -191,14 +70,11 @@ Spec == Init /\ [][Next]_vars
 -----------------------------------------------------------------------------
 (* Sanity of the model itself (checked by TLC in every state).              *)
 
-RECURSIVE FlatNode(_), FlatSeq(_)
-FlatNode(n) == IF n.t = "L" THEN << n.d >>
-               ELSE << <<"LP">> >> \o FlatSeq(n.k) \o << <<"RP">> >>
-FlatSeq(s)  == IF s = <<>> THEN <<>> ELSE FlatNode(Head(s)) \o FlatSeq(Tail(s))
+FlatSeq(s) == Tokens(s)
 
 RECURSIVE FlatStack(_)
 FlatStack(st) == IF Len(st) = 1 THEN FlatSeq(st[1])
-                 ELSE FlatStack(SubSeq(st, 1, Len(st) - 1)) \o << <<"LP">> >>
+                 ELSE FlatStack(SubSeq(st, 1, Len(st) - 1)) \o <<LP>>
                       \o FlatSeq(st[Len(st)])
 
 (* The token stream and the structure built from it always agree. *)
